@@ -774,11 +774,28 @@ def jump_cascade_sources():
     return out
 
 
+def many_cells_sources():
+    """a function with n cell variables and one free variable read on one arm of an `if`: with
+    n >= 256 the free-variable operand (cells come first) needs an EXTENDED_ARG"""
+    out = []
+    for n in (254, 255, 256, 257, 300):
+        names = ["c%d" % i for i in range(n)]
+        lines = ["def outer(fv):", "    def f(flag):"]
+        lines += ["        " + " = ".join(names) + " = 0"]
+        lines += ["        def inner():", "            return (" + ", ".join(names) + ")"]
+        lines += ["        if flag:", "            y = fv", "        else:", "            y = 0", "        return y, inner"]
+        lines += ["    return f", "print(outer(7)(1)[0], outer(7)(0)[0])"]
+        out.append("\n".join(lines) + "\n")
+    return out
+
+
 def example_cases():
     out = []
     for src in REPO_EXAMPLES + EXTRA_EXAMPLES:
         for opt in (0, 2):
             out.append({"src": src, "mode": "exec", "optimize": opt, "min_version": 7, "_label": "examples"})
+    for src in many_cells_sources():
+        out.append({"src": src, "mode": "exec", "optimize": 0, "min_version": 7, "_label": "examples"})
     for i in range(39):  # _test_minimized/*.py are the first corpus entries
         out.append({"corpus": i, "optimize": 0, "min_version": 7, "_label": "repo_minimized"})
     return out
